@@ -1023,7 +1023,8 @@ class AnyBetween(__Class):
         '''
         for c in (start, end):
             if isinstance(c, (str, _pre.Pregex)):
-                if len(c if isinstance(c, str) else str(c).replace("\\", "", 1)) != 1:
+                if len(c if isinstance(c, str) else str(c).replace("\\", "", 1)) != 1 or \
+                    (not isinstance(c, str) and c._get_type() != _pre._Type.Token):
                     message = f"Argument \"{c}\" is neither a string nor a token."
                     raise _ex.InvalidArgumentTypeException(message)
             else:
@@ -1070,7 +1071,8 @@ class AnyButBetween(__Class):
         '''
         for c in (start, end):
             if isinstance(c, (str, _pre.Pregex)):
-                if len(c if isinstance(c, str) else str(c).replace("\\", "", 1)) != 1: 
+                if len(c if isinstance(c, str) else str(c).replace("\\", "", 1)) != 1 or \
+                    (not isinstance(c, str) and c._get_type() != _pre._Type.Token): 
                     message = f"Argument \"{c}\" is neither a string nor a token."
                     raise _ex.InvalidArgumentTypeException(message)
             else:
@@ -1116,7 +1118,8 @@ class AnyFrom(__Class):
             raise _ex.NotEnoughArgumentsException(message)
         for c in chars:
             if isinstance(c, (str, _pre.Pregex)):
-                if len(c if isinstance(c, str) else str(c).replace("\\", "", 1)) != 1: 
+                if len(c if isinstance(c, str) else str(c).replace("\\", "", 1)) != 1 or \
+                    (not isinstance(c, str) and c._get_type() != _pre._Type.Token): 
                     message = f"Argument \"{c}\" is neither a string nor a token."
                     raise _ex.InvalidArgumentTypeException(message)
             else:
@@ -1159,7 +1162,8 @@ class AnyButFrom(__Class):
             raise _ex.NotEnoughArgumentsException(message)
         for c in chars:
             if isinstance(c, (str, _pre.Pregex)):
-                if len(c if isinstance(c, str) else str(c).replace("\\", "", 1)) != 1: 
+                if len(c if isinstance(c, str) else str(c).replace("\\", "", 1)) != 1 or \
+                    (not isinstance(c, str) and c._get_type() != _pre._Type.Token): 
                     message = f"Argument \"{c}\" is neither a string nor a token."
                     raise _ex.InvalidArgumentTypeException(message)
             else:
